@@ -232,7 +232,7 @@ pub fn run(cfg: &Config) -> i32 {
     require_binaries(cfg);
     let tmp = scratch_dir(cfg, "c07");
     let budget = Duration::from_secs_f64(cfg.pick(60.0, 600.0) * cfg.scale);
-    let mut stats = parallel(cfg, "main", cfg.scaled(cfg.pick(12_000, 5_000_000)), budget, |idx, r, st| case(cfg, &tmp, idx, r, st));
+    let mut stats = parallel(cfg, "main", cfg.scaled(cfg.pick(8_000, 5_000_000)), budget, |idx, r, st| case(cfg, &tmp, idx, r, st));
     let _ = std::fs::remove_dir_all(&tmp);
     let mut known_replayed = Vec::new();
     for k in load_known(cfg).into_iter().filter(|k| k.property == "C07" && k.status == "open") {
